@@ -5,8 +5,11 @@ use crate::report::{self, Report, Tier};
 pub mod c01;
 pub mod c02;
 pub mod c03;
+pub mod c06;
 pub mod c08;
 pub mod c09;
+pub mod c11;
+pub mod c12;
 pub mod c13;
 pub mod c14;
 pub mod c15;
@@ -18,8 +21,11 @@ pub fn run(prop: &str, tier: Tier) -> i32 {
         "C01" => c01::run(tier),
         "C02" => c02::run(tier),
         "C03" => c03::run(tier),
+        "C06" => c06::run(tier),
         "C08" => c08::run(tier),
         "C09" => c09::run(tier),
+        "C11" => c11::run(tier),
+        "C12" => c12::run(tier),
         "C13" => c13::run(tier),
         "C14" => c14::run(tier),
         "C15" => c15::run(tier),
@@ -43,8 +49,11 @@ pub fn replay(prop: &str, path: &str) -> i32 {
         "C01" => c01::replay(&j),
         "C02" => c02::replay(&j),
         "C03" => c03::replay(&j),
+        "C06" => c06::replay(&j),
         "C08" => c08::replay(&j),
         "C09" => c09::replay(&j),
+        "C11" => c11::replay(&j),
+        "C12" => c12::replay(&j),
         "C13" => c13::replay(&j),
         "C14" => c14::replay(&j),
         "C15" => c15::replay(&j),
